@@ -151,4 +151,13 @@ PROPS = {
                 "each case starts a fresh server and replays the asset's request alphabet; a case is non-trivial when a cache file is missing or damaged",
         "assumptions": ["each asset is copied alone into a scratch VoD root", "responses are compared byte for byte with a scanning server"],
     },
+    "C19": {
+        "parts": [{"pkg": "receiver", "test": "TestVerifC19", "shards": {"quick": 16, "thorough": 16}, "env": {"GOMAXPROCS": "1"}, "budget_s": {"quick": 60, "thorough": 1500}}],
+        "clauses": ["C19.a", "C19.c", "C19.race"],
+        "level": "model_checking",
+        "rule": "7 scenarios (2-3 concurrent first uploads of distinct tracks of a new channel, init+media, two channels, existing channel, authentication + per-representation config, media of two tracks): "
+                "every interleaving with <= 2 (quick) / 3 (thorough) preemptions over RWMutex, channel send/receive and goroutine spawn operations of the real receiver; "
+                "vector-clock race detection on rewritten struct-field accesses; final state compared with the final states of all sequential orders",
+        "assumptions": ["file system operations are atomic steps of the running thread", "accesses inside mp4ff / dash-mpd are not hooked (only the receiver's own struct fields are)"],
+    },
 }
